@@ -13,4 +13,4 @@ echo "== demo without change"; PYTHONPATH=$WT /venv/bin/python demo_seed.py > /t
 git stash pop -q
 echo "== check $ID ($TIER) against the changed tree"
 cd /verif && VERIF_REPO=$WT /verif/.venv/bin/python -m vf.checks.$(echo $ID | tr 'A-Z' 'a-z' | cut -d_ -f1) --tier $TIER > /tmp/seedrun_$ID.out 2>&1; echo "check exit $?"
-grep -c "^VIOLATION property=$CID" /tmp/seedrun_$ID.out; grep "^  key" /tmp/seedrun_$ID.out | head -3 | cut -c1-220; tail -1 /tmp/seedrun_$ID.out
+grep -c "^VIOLATION property=$CID" /tmp/seedrun_$ID.out; grep "^  key" /tmp/seedrun_$ID.out | sed "s/^  key=//; s/ .*//" | sort -u > /tmp/seedkeys_$ID.txt; grep "^  key" /tmp/seedrun_$ID.out | head -3 | cut -c1-220; tail -1 /tmp/seedrun_$ID.out
